@@ -40,11 +40,11 @@ THEOREMS = [
     "Typedpy.C07.mapper_round_trip_region_ascii",
     "Typedpy.C07.mapper_round_trip_K",
     "Typedpy.C07.mapper_round_trip_region_K",
-    "Typedpy.C07.keep_undefined_leak_counterexample",
-    "Typedpy.C07.inherited_closed_counterexample",
+    "Typedpy.C07.keep_undefined_leak_fixed",
+    "Typedpy.C07.inherited_closed_fixed",
     "Typedpy.C07.closed_round_trip_example",
     "Typedpy.C07.closed_tree_round_trip",
-    "Typedpy.C07.open_top_default_keeps_nothing",
+    "Typedpy.C07.deserializer_default_keeps_nothing",
     "Typedpy.C07.cache_transparent_nested",
     "Typedpy.C07.history_transparent_nested",
     "Typedpy.C07.cache_nested_example",
@@ -183,6 +183,11 @@ def judge_call(cd, case, impl, model, hist):
                 key = "roundtrip:unexplained"
                 if hyp.get("region") and hyp.get("domE"):
                     key = "roundtrip:inside-the-proved-region"
+                # the former findings fixed in /repo 0225533 / 005d815 keep their keys if they return
+                if S.closed(cd) and r.get("extras"):
+                    key = "keep-undefined-leak:Deserializer-closed-outer"
+                elif S.closed(cd) and "err" in r and "non-field" in r.get("msg", ""):
+                    key = "inherited-closed-class-rejects-mapped-key:deserialize_structure_internal"
             fails.append((key, "deserialize(serialize(x)) != x: document " + json.dumps(real_doc)[:200] + " gave "
                           + json.dumps(r)[:300] + " for instance " + json.dumps(case["kw"])[:200]
                           + " mappers " + json.dumps([lv["mapper"] for lv in cd["levels"]])[:300] + hist))
